@@ -7,24 +7,35 @@
 (* of rewrites / opens would starve the reads).                             *)
 EXTENDS TypedStream, TLCExt, Json, IOUtils
 CONSTANTS Depth, MinItems, Thin
-GenByteToks  == {<<>>, <<65>>, <<0, 255, 10>>, <<104, 101, 108, 108, 111>>}
+(* <<-1, n, id>>: a payload of n bytes (pattern id) - sizes at and around internal block sizes *)
+GenByteToks  == {<<>>, <<65>>, <<0, 255, 10>>, <<104, 101, 108, 108, 111>>,
+                 <<-1, 8192, 1>>, <<-1, 1025, 2>>, <<-1, 4095, 3>>}
 GenChunkSets == {<<1, 0>>, <<2, 3, -1>>, <<1, 4, 7, 0>>, <<5, -2>>, <<-3, -4>>, <<-5, 1, -6>>}
 GenLateW     == {a \in WActs : IF a.lim = 3 THEN TRUE ELSE a.lim = -1 /\ a.tok # <<>> /\ a.tok[1] = 1}
 
 Starts == {StartOf(items, i) - UOff : i \in hd..Len(items) + 1}
-GenRW  == {a \in RWActs : a.pos \in Starts \cup {1, ULen} /\ a.plen > 0 /\ a.tok[1] # 0}
+GenPos == (Starts \cup {1, ULen}) \cap 0..ULen
+GenRW  ==
+       {[op |-> "rw", kind |-> "p", pos |-> p, plen |-> Len(s), tok |-> s] :
+            p \in GenPos, s \in {x \in ByteToks : x # <<>> /\ x[1] > 0}}
+  \cup {[op |-> "rw", kind |-> "u32", pos |-> p, plen |-> 4, tok |-> <<i>>] :
+            p \in GenPos, i \in ScalarIdx \ {0}}
+(* truncation points: all of them for short streams, around the item boundaries for long ones *)
+GenCuts  == IF total <= 80 THEN 0..total
+            ELSE {StartOf(items, i) + d : i \in 1..Len(items) + 1, d \in {-1, 0, 1, 3}} \cap 0..total
+GenOpens == {[op |-> "open", c |-> c, ks |-> k] : c \in GenCuts, k \in ChunkSets}
 
 GenNext ==
   \/ phase = "w" /\ Len(items) < MaxItems /\ \E a \in WActs : Step(a)
   \/ phase = "w" /\ Len(items) >= 2 /\ NRW < MaxRW /\ \E a \in GenRW : Step(a)
-  \/ phase = "w" /\ Len(items) >= MinItems /\ \E a \in OpenActs : Step(a)
+  \/ phase = "w" /\ Len(items) >= MinItems /\ \E a \in GenOpens : Step(a)
   \/ phase = "r" /\ \E a \in RdActs : Step(a)
   \/ phase = "r" /\ sync /\ hd = 3 /\ \E a \in {x \in GenRW : x.pos <= 4} : Step(a)
   \/ phase = "r" /\ hd \in {2, 4} /\ Len(items) < MaxItems + 2 /\ \E a \in GenLateW : Step(a)
   \/ phase = "r" /\ ~AtEnd /\ \E a \in RdActs : \E r \in UReplies(a) : UStep(a, r)
-  \/ phase = "r" /\ AtEnd /\ ~midrw /\ \E a \in OpenActs : Step(a)
+  \/ phase = "r" /\ AtEnd /\ ~midrw /\ \E a \in GenOpens : Step(a)
   \/ phase = "end" /\ \E a \in RdActs : \E r \in UReplies(a) : ~r.b.ok /\ UStep(a, r)
-  \/ phase = "end" /\ ~midrw /\ \E a \in {x \in OpenActs : x.c % 3 = 0 \/ x.c = total} : Step(a)
+  \/ phase = "end" /\ ~midrw /\ \E a \in {x \in GenOpens : x.c % 3 = 0 \/ x.c = total} : Step(a)
 GenSpec == Init /\ [][GenNext]_allvars
 
 ASSUME TLCSet(2, 0)
